@@ -94,6 +94,11 @@ class FnLowerS(FnLower):
             raw = n.get('inner')
             # init, range, begin, end, cond, inc, loopvar, body
             init, rng, beg, end, cond, inc, loopvar, body = raw
+            # the compiler-internal __range/__begin/__end variables get stable names (loop ordinal)
+            for st, nm in ((rng, 'vf_range'), (beg, 'vf_begin'), (end, 'vf_end')):
+                for v in kids(st):
+                    if v.get('kind') == 'VarDecl':
+                        self.rename[v['id']] = '%s%d' % (nm, self.loopn)
             self.emit('{')
             self.ind += 1
             self.push_scope('block')
@@ -194,7 +199,7 @@ class FnLowerS(FnLower):
 
     def vardecl(self, v):
         q = qt(v)
-        name = self.cvar(v['name'])
+        name = self.rename.get(v['id']) or self.cvar(v['name'])
         ks = kids(v)
         init = ks[0] if ks else None
         sc = v.get('storageClass')
